@@ -66,6 +66,19 @@ type Win struct {
 // appending `extra` samples (only possible when the window has spare
 // capacity). The appended samples are canaries too.
 func (a *Arena) Window(s, e, extra, salt int) *Win {
+	// on every other arena the accessors and the channel views of the
+	// larger buffer are used before the window is derived from it
+	if (a.salt+salt)%2 == 1 {
+		n := a.P.Length() + a.P.Capacity() + a.P.Len() + a.P.Cap()
+		for ci := 0; ci < a.C; ci++ {
+			cv := a.P.Channel(ci)
+			n += cv.Length() + cv.Capacity()
+			if a.K > 0 {
+				_ = cv.Sample(0)
+			}
+		}
+		_ = n
+	}
 	// the same window reached in different ways: directly, as a short window
 	// that is re-extended into its spare capacity, or through an outer window
 	var b dyn.Buf
